@@ -143,6 +143,7 @@ static int vm_slot_for_task(void *task) {
     for (int i = 0; i < nvm; i++) if (vmtab[i].task == task && vmtab[i].vm) return i;
     return -1;
 }
+bool audit_task_in_vm(void *task) { return vm_slot_for_task(task) >= 0; }
 int audit_mode;                 /* 0 off, 1 on */
 uint64_t audit_stride = 1;      /* after the first 2000 instructions of a VM */
 uint64_t audits, audit_objs, audit_fail;
